@@ -91,6 +91,10 @@ def _one(args):
                     continue
         except Regenerate:
             continue
+        if idx % 6 == 2 and not inst.get("basis"):
+            # the non-Hermitian Hamiltonian in the pre-blocked containers (nested block lists per term,
+            # BlockSeries of blocks): the lower blocks are the user's, not adjoints of the upper ones
+            inst["format"] = ["blockdict", "blocklist", "blockseries2"][(idx // 6) % 3]
         desc = hermitian.describe(inst)
         try:
             sess = hermitian.make_session(inst, idx + 1, p, spectrum=0)
